@@ -477,10 +477,12 @@ def run_job(job):
                 }
                 if v.smt2 and len(res["samples"]) < 2 and v.status == "proved":
                     res["samples"].append({"obligation": f"{full}[{cid}]@path{pi}", "verdict": f"unsat ({v.backend})", "smt2": v.smt2[:3000]})
-                if v.status == "unknown" and not isinstance(cond, (bool, np.bool_)):
+                if v.status == "unknown" and not isinstance(cond, (bool, np.bool_)) and getattr(contract, "native_refutation", False):
                     # the solvers could not decide: look for a failing input of exactly this obligation on the real
                     # code (sampled inputs satisfying the preconditions).  Found -> a violation with its input;
-                    # not found -> still undecided (exit 2), never a violation.
+                    # not found -> still undecided (exit 2), never a violation.  Opt-in per contract
+                    # (`native_refutation = True`): only where the native evaluation of the postcondition is
+                    # numerically benign - a float artefact of the *specification* must never become a violation.
                     viol = _refute_natively(contract, case, cid, S, p, pi, v, oname, full, rng)
                     if viol is not None:
                         v.status = "refuted"
